@@ -476,6 +476,14 @@ def run(ctx):
     texts = sorted({c[1] + c[2] + c[3] for c in cases if c[1] + c[2] + c[3]})
     dis, _ = common.corr_stage('lex', texts, impl.lex_dump, 'lex')
     res['disagreements'] += dis
+    import gens as _gens
+    for kind, text, span in _gens.long_cases(ctx.quick()):
+        if span:
+            lf = common.long_lex_failure(kind, text, span)
+            if lf:
+                lf['kind'] = 'long-region'
+                res['failures'].append(lf)
+            dist['long:' + kind] += 1
     cf, cdist = config_stage(ctx, words)
     res['failures'] += cf
     dist['config_word_lexings'] = cdist['word_lexings']
@@ -548,6 +556,8 @@ def search(ctx, hints):
 
 def shrink(f):
     """Delete characters outside and inside the span while the case keeps failing (span adjusted)."""
+    if f and f.get('long_input'):
+        return f
     if f and f.get('kind') == 'config':
         order = list(f['order'])
         w = f['word']
@@ -594,6 +604,11 @@ def shrink(f):
 
 def replay(payload):
     f = payload.get('failure')
+    if f and f.get('long_input'):
+        lc = common.long_case_text(f)
+        if lc:
+            g = common.long_lex_failure(*lc)
+            return {'fails': bool(g), 'observed': g}
     if f and f.get('kind') == 'config':
         # the history: the default instance lexes the word first, then a configured lexer
         tokenize(f['word'])
